@@ -33,6 +33,9 @@ Record SInv (s : lsys) : Prop := {
              l_lock s = 1 \/
              (exists u, (u < l_n s)%nat /\ l_waker (l_pc (l_thr s u)) = true) \/
              (exists u, (u < l_n s)%nat /\ l_about (l_thr s u) = true);
+  (* C04's model also has a mutex client whose owner locks again (program point LNest); the synclock client
+     never is there *)
+  si_nonest : forall t, l_pc (l_thr s t) <> LNest;
 }.
 
 Lemma sinit_inv n it : SInv (linit KSync n it).
@@ -94,14 +97,17 @@ Ltac t_sleep Hsleep :=
 
 Lemma sstep_inv P s t ch s' l : SInv s -> lstep P true s t ch = Some (s', l) -> SInv s'.
 Proof.
-  intros [Hk HL Hltn Hit Hheld Hsleep] Hs.
+  intros [Hk HL Hltn Hit Hheld Hsleep Hnn] Hs.
   assert (HL' : LInv s') by (eapply lstep_linv; eauto).
   assert (Hk' : l_kind s' = KSync) by (rewrite <- Hk; eapply lstep_kind; eauto).
   destruct HL as [H01 Hex Hfree Hi0 Hi1 Hov].
   unfold lstep in Hs. rewrite Hk in Hs.
   destruct (Nat.leb (l_n s) t) eqn:Hlt; [discriminate|]. apply Nat.leb_gt in Hlt.
   cbv zeta in Hs.
-  destruct (l_pc (l_thr s t)) eqn:Epc; step_cases Hs; try discriminate; inv_some Hs.
+  destruct (l_pc (l_thr s t)) eqn:Epc; step_cases Hs; try discriminate;
+    try (exfalso; apply (Hnn t); assumption);
+    try match goal with H : nests KSync && _ = true |- _ => simpl in H; discriminate end;
+    inv_some Hs.
   all: try match goal with
        | E : first_blocked _ _ = Some ?u |- _ =>
          let H1 := fresh "Hwk" in pose proof (first_blocked_spec _ _ _ E) as H1
@@ -111,25 +117,39 @@ Proof.
   all: try (t_iters Hit; fail).
   all: try (t_held Hheld; fail).
   all: try (t_sleep Hsleep; fail).
-  - (* spurious weak-CAS failure: the thread retries (repaired loop) *)
-    intros a Ha. right. right. exists t. split; [assumption|].
-    pose proof (Hit t) as X. rewrite Epc in X. specialize (X eq_refl).
-    unfold l_about. upd_all; try reflexivity; try (exfalso; lia).
-  - (* CAS success: the new holder *)
-    intros _. exists t. split; [assumption|]. upd_all; try reflexivity.
-  - (* unlock: store UNLOCK; the unlocker is now between its store and its wake call *)
-    intros a Ha. right. left. exists t. split; [assumption|]. upd_all; try reflexivity.
-  - (* wake_one with a sleeper: the woken thread is about to retry the CAS *)
-    assert (Hn : (n < l_n s)%nat) by (eapply first_blocked_lt; eassumption).
-    assert (Hnt : n <> t) by (intros ->; congruence).
-    intros a Ha. right. right. exists n. split; [assumption|].
-    pose proof (Hit n) as X. rewrite Hwk in X. specialize (X eq_refl).
-    unfold l_about. upd_all; try reflexivity; try (exfalso; lia).
-  - (* wake_one without a sleeper: nobody is asleep *)
-    intros a Ha. exfalso. upd_all; try discriminate.
-    destruct (Nat.lt_ge_cases a (l_n s)) as [Hl|Hl].
-    + eapply first_blocked_none; eassumption.
-    + rewrite (Hltn a Hl) in Ha. discriminate.
+  all: try solve [ let a := fresh "a" in intros a; upd_all; try discriminate; apply Hnn ].
+  (* the remaining goals are selected by what they need, not by position, so that program points / lock
+     kinds added to C04's model (which this development reads only for KSync) do not disturb the proof *)
+  (* a new holder: compare-exchange success (and any other step that takes the free lock word) *)
+  all: try solve [ intros _; exists t; (split; [assumption|]); upd_all; try reflexivity ].
+  (* spurious weak-CAS failure: the thread retries (repaired loop) *)
+  all: try solve [ let a := fresh "a" in let Ha := fresh "Ha" in let X := fresh "X" in
+                   intros a Ha; right; right; exists t; (split; [assumption|]);
+                   pose proof (Hit t) as X; rewrite Epc in X; specialize (X eq_refl);
+                   unfold l_about; upd_all; try reflexivity; try (exfalso; lia) ].
+  (* unlock: store UNLOCK; the unlocker is now between its store and its wake call *)
+  all: try solve [ let a := fresh "a" in let Ha := fresh "Ha" in
+                   intros a Ha; right; left; exists t; (split; [assumption|]); upd_all; try reflexivity ].
+  (* wake_one with a sleeper: the woken thread is about to retry the CAS *)
+  all: try solve [ match goal with
+       | E : first_blocked _ _ = Some ?n, Hw : l_pc (l_thr _ ?n) = LBlocked |- _ =>
+         let Hn := fresh "Hn" in let Hnt := fresh "Hnt" in let a := fresh "a" in let Ha := fresh "Ha" in
+         let X := fresh "X" in
+         assert (Hn : (n < l_n s)%nat) by (eapply first_blocked_lt; eassumption);
+         assert (Hnt : n <> t) by (intros ->; congruence);
+         intros a Ha; right; right; exists n; (split; [assumption|]);
+         pose proof (Hit n) as X; rewrite Hw in X; specialize (X eq_refl);
+         unfold l_about; upd_all; try reflexivity; try (exfalso; lia)
+       end ].
+  (* wake_one without a sleeper: nobody is asleep *)
+  all: try solve [ match goal with
+       | E : first_blocked _ _ = None |- _ =>
+         let a := fresh "a" in let Ha := fresh "Ha" in let Hl := fresh "Hl" in
+         intros a Ha; exfalso; upd_all; try discriminate;
+         (destruct (Nat.lt_ge_cases a (l_n s)) as [Hl|Hl];
+          [ eapply first_blocked_none; eassumption
+          | rewrite (Hltn a Hl) in Ha; discriminate ])
+       end ].
 Qed.
 
 Theorem s_reachable_inv P n it sched : SInv (exec lsys (lstep P true) (linit KSync n it) sched).
@@ -149,11 +169,11 @@ Qed.
 
 Definition l_stuck_pc (p : lpc) : bool := match p with LBlocked | LDone => true | _ => false end.
 
-Lemma l_enabled_unless P s t : l_kind s = KSync ->
+Lemma l_enabled_unless P s t : l_kind s = KSync -> l_pc (l_thr s t) <> LNest ->
   (t < l_n s)%nat -> l_stuck_pc (l_pc (l_thr s t)) = false -> l_enabled P s t.
 Proof.
-  intros Hk Ht Hp. unfold l_enabled, lstep. apply Nat.leb_gt in Ht. rewrite Ht, Hk. cbv zeta.
-  destruct (l_pc (l_thr s t)); try discriminate;
+  intros Hk Hnn Ht Hp. unfold l_enabled, lstep. apply Nat.leb_gt in Ht. rewrite Ht, Hk. cbv zeta.
+  destruct (l_pc (l_thr s t)); try discriminate; try (exfalso; apply Hnn; reflexivity);
     repeat match goal with |- context [match ?e with _ => _ end] => destruct e end; discriminate.
 Qed.
 
@@ -162,7 +182,7 @@ Qed.
 Lemma s_progress P s : SInv s ->
   (exists t, (t < l_n s)%nat /\ l_enabled P s t) \/ (forall t, (t < l_n s)%nat -> l_pc (l_thr s t) = LDone).
 Proof.
-  intros [Hk HL Hltn Hit Hheld Hsleep].
+  intros [Hk HL Hltn Hit Hheld Hsleep Hnn].
   destruct (bounded_dec (fun t => negb (l_stuck_pc (l_pc (l_thr s t)))) (l_n s)) as [(t & Ht & Hp)|Hall].
   { left. exists t. split; [assumption|]. apply l_enabled_unless; auto.
     destruct (l_stuck_pc (l_pc (l_thr s t))); [discriminate|reflexivity]. }
@@ -191,16 +211,16 @@ Theorem synclock_no_lost_wakeup_all P n it sched t :
   (exists u, (u < n)%nat /\ l_waker (l_pc (l_thr s u)) = true /\ l_enabled P s u) \/
   (exists u, (u < n)%nat /\ l_about (l_thr s u) = true /\ l_enabled P s u).
 Proof.
-  intros s Hb. pose proof (s_reachable_inv P n it sched) as [Hk HL Hltn Hit Hheld Hsleep].
-  fold s in Hk, HL, Hltn, Hit, Hheld, Hsleep.
+  intros s Hb. pose proof (s_reachable_inv P n it sched) as [Hk HL Hltn Hit Hheld Hsleep Hnn].
+  fold s in Hk, HL, Hltn, Hit, Hheld, Hsleep, Hnn.
   assert (Hn : l_n s = n) by (unfold s; rewrite l_n_exec; reflexivity). rewrite Hn in *.
   destruct (Hsleep t Hb) as [Hl|[(u & Hu & Hp)|(u & Hu & Hp)]].
   - left. split; [exact Hl|]. destruct (Hheld Hl) as (u & Hu & Hp). exists u. split; [assumption|]. split; [assumption|].
-    apply l_enabled_unless; [assumption|rewrite Hn; assumption|]. destruct (l_pc (l_thr s u)); simpl in *; congruence.
+    apply l_enabled_unless; [assumption|apply Hnn|rewrite Hn; assumption|]. destruct (l_pc (l_thr s u)); simpl in *; congruence.
   - right. left. exists u. split; [assumption|]. split; [assumption|].
-    apply l_enabled_unless; [assumption|rewrite Hn; assumption|]. destruct (l_pc (l_thr s u)); simpl in *; congruence.
+    apply l_enabled_unless; [assumption|apply Hnn|rewrite Hn; assumption|]. destruct (l_pc (l_thr s u)); simpl in *; congruence.
   - right. right. exists u. split; [assumption|]. split; [assumption|].
-    apply l_enabled_unless; [assumption|rewrite Hn; assumption|]. unfold l_about in Hp.
+    apply l_enabled_unless; [assumption|apply Hnn|rewrite Hn; assumption|]. unfold l_about in Hp.
     destruct (l_pc (l_thr s u)); simpl in *; congruence.
 Qed.
 
